@@ -246,8 +246,13 @@ class Gen:
                 b = self.lit('%')
             return ['bin', op, a, b]
         if x < 0.55:
-            # integer division / MOD on integral operands, divisor non-zero
+            # integer division / MOD, divisor non-zero; mostly integral operands,
+            # sometimes floats (which are rounded to integers first)
             mr = min(maxrank, 1)
+            if maxrank >= 2 and self.p['floats'] and r.random() < 0.3:
+                a = self.num_expr(sc, depth - 1, maxrank)
+                d = r.choice((['lit', '!', 2.5], ['lit', '#', 1.5], ['lit', '!', 3.5], ['lit', '%', 2]))
+                return ['bin', r.choice(('\\', 'mod')), a, d]
             a = self.num_expr(sc, depth - 1, mr)
             d = r.choice((1, 2, 3, 4, 5, 7, -2, -3))
             return ['bin', r.choice(('\\', 'mod')), a, ['lit', '%', d]]
@@ -917,9 +922,10 @@ class Gen:
                  if not i['ty'].startswith('T:') and not i['dyn']]
         if not cands or not self.p['arrays']:
             return
+        same = r.choice(cands) if r.random() < 0.5 else None
         for p in self.procs:
-            if r.random() < 0.35:
-                n, info = r.choice(cands)
+            if r.random() < 0.45:
+                n, info = same or r.choice(cands)
                 pn = self.fresh('pa', info['ty'])
                 p['params'].append([pn, info['ty'], True])
                 p['arr_rank'][pn] = len(info['bounds'])
@@ -1178,9 +1184,11 @@ class Gen:
                 site, i = body, len(body)
             site.insert(i, st)
             # set-up goes to the very front: a GOTO must not skip a DIM (a
-            # static array whose DIM never executed is outside the subset)
+            # static array whose DIM never executed is outside the subset) -
+            # except, in the 'any' family, now and then
+            late = self.p['family'] == 'any' and r.random() < 0.2
             for q in reversed(pre):
-                body.insert(0, q)
+                body.insert(r.randint(0, i) if late else 0, q)
             self.planted = st
             self.plants.append(st)
             if self.last_repairs:
@@ -1200,7 +1208,12 @@ class Gen:
             self.stmt_budget = r.randint(1, 3)
             main.append({'k': 'label', 'name': lab})
             main += self.block(sc, r.randint(1, 3), 1)
-            main.append({'k': 'return'})
+            if i == len(subs) - 1 and not hl and not self.data_items and r.random() < 0.15:
+                # the last routine runs into the end of the program instead of
+                # RETURNing (legal: the program just ends)
+                self.no_return = True
+            else:
+                main.append({'k': 'return'})
         if hl:
             main.append({'k': 'label', 'name': hl})
             m = self.next_marker()
